@@ -79,6 +79,8 @@ pub struct Inner {
     pub lists: Vec<(usize, List<u64>)>,
     /// contents of nested lists observed by the last operation: (model id, contents)
     pub seen: Vec<(usize, Vec<u64>)>,
+    /// identity tag (first element) of every inner list: (model id, tag); twins share a tag
+    pub tags: Vec<(usize, u64)>,
 }
 
 pub const INNER_TAG: u64 = 0x7A6_0000;
@@ -311,7 +313,14 @@ impl Elem for List<u64> {
         let v = self.to_vec();
         match v.first() {
             Some(t) if *t >= INNER_TAG && *t < INNER_TAG + 0x10000 => {
-                let id = (*t - INNER_TAG) as usize;
+                // The tag names the inner list - or, in histories with twins, two inner lists
+                // that started with the same contents: then the one whose present contents are
+                // these (observations compare contents, so equal twins are interchangeable).
+                let tagged: Vec<usize> = inner.tags.iter().filter(|(_, tg)| tg == t).map(|(i, _)| *i).collect();
+                let id = match tagged.len() {
+                    0 | 1 => (*t - INNER_TAG) as usize,
+                    _ => inner.lists.iter().filter(|(i, _)| tagged.contains(i)).find(|(_, l)| l.to_vec() == v).map(|(i, _)| *i).unwrap_or(tagged[0]),
+                };
                 inner.seen.push((id, v));
                 Ok(MVal::Ref(id))
             }
